@@ -1,0 +1,32 @@
+//go:build verif
+
+// Contracts for package bastion, checked by /verif/govc (see /verif/DESIGN.md, C10/C11/C12/C19).
+// This file contains no code: only structured //@ comments keyed by function.
+
+package bastion
+
+//@ func (*addHandler).handleUpdate
+//@   returns (sc, body, ct, rerr)
+//@   // projections of counterexamples (replay)
+//@   let eNoSig   := upd_err == witness.ErrNoValidSignature
+//@   let eOldSize := upd_err == witness.ErrOldSizeInvalid
+//@   let eStale   := upd_err == witness.ErrCheckpointStale
+//@   let eRoot    := upd_err == witness.ErrRootMismatch
+//@   let eProof   := upd_err == witness.ErrInvalidProof
+//@   requires a != nil && a.w != nil && origin == originFor(logID) && a.witVerifier == witV()
+//@   modifies n_wo, wo_err, wo_h, n_gl, gl_err, gl_val, gl_h, n_set, set_err, set_arg, set_h, n_close, close_h, n_commit
+//@   modifies n_sign, sign_err, sign_out, sign_n, st_has, st_val, cnt, n_upd, upd_id, upd_old, upd_cp, upd_proof, upd_out, upd_err
+//@   // the request is passed to the witness exactly once, unchanged
+//@   ensures[C10.u,C12.u] n_upd == old(n_upd) + 1 && upd_id == logID && upd_old == oldSize && upd_cp == newCP && upd_proof == proof
+//@   // accepted => 200 and the body is the witness's cosignature line over the submitted text
+//@   ensures[C10.200] upd_err == nil && nsig(upd_out) <= 100 ==> rerr == nil && sc == 200 && ct == ""
+//@                    && str(body) == "— " ++ sig0Name(upd_out, witV()) ++ " " ++ sig0B64(upd_out, witV()) ++ "\n" && text(upd_out) == text(newCP)
+//@   ensures[C10.200] rerr == nil && sc == 200 ==> upd_err == nil
+//@   ensures[C10.403] upd_err == witness.ErrNoValidSignature ==> rerr == nil && sc == 403 && len(body) == 0
+//@   ensures[C10.400] upd_err == witness.ErrOldSizeInvalid  ==> rerr == nil && sc == 400 && len(body) == 0
+//@   ensures[C10.409s] upd_err == witness.ErrCheckpointStale ==> rerr == nil && sc == 409 && ct == "text/x.tlog.size"
+//@                    && str(body) == fmt_du(cpSize(text(upd_out))) ++ "\n" && upd_out == old(st_val[theStore()][logID])
+//@   ensures[C10.409r] upd_err == witness.ErrRootMismatch ==> rerr == nil && sc == 409 && ct == "" && len(body) == 0
+//@   ensures[C10.422] upd_err == witness.ErrInvalidProof  ==> rerr == nil && sc == 422 && len(body) == 0
+//@   ensures[C10.500] upd_err != nil && !isSentinel(upd_err) ==> rerr != nil
+//@   ensures[C10.cod] rerr == nil ==> sc == 200 || sc == 400 || sc == 403 || sc == 404 || sc == 409 || sc == 422 || sc == 500
